@@ -44,6 +44,8 @@ def build(rng, direction, feat=None):
     n = rng.randint(1, 6)
     w = WBS(); tasks = []
     fixed_mode = direction == 'fwd' and rng.random() < 0.25
+    deep = rng.random() < 0.35           # nested summaries with links declared on outer summaries
+    if deep: n = rng.randint(4, 7)
     for i in range(n):
         kw = dict(estimate=rng.choice([None, 0, 1, 3.5, 8, 8, 20]), spent=rng.choice([None, None, 0, 1, 9]),
                   resource=rng.choice(['r1', 'r2', None]))
@@ -55,16 +57,22 @@ def build(rng, direction, feat=None):
             kw['prio'] = rng.choice([1, 'high', None])
         t = Task(i + 1, f't{i + 1}', **kw); tasks.append(t)
         cands = [p for p in tasks[:-1] if not p.milestone]
-        if cands and rng.random() < 0.5:
+        if deep and cands and rng.random() < 0.75:
+            rng.choice(cands[-2:]).children.append(t)
+        elif cands and rng.random() < 0.5:
             rng.choice(cands).children.append(t)
         else:
             w.roots.append(t)
     order = list(w.tasks)
     fwd_only = rng.random() < 0.4
+    summaries = [t for t in order if len(t.children) > 0]
     for _ in range(rng.randint(0, n)):
         if n < 2:
             break
         a, b = rng.sample(order, 2)
+        if deep and summaries and rng.random() < 0.6:
+            b = rng.choice(summaries)              # the dependent side is a summary: its leaves inherit the link
+            if a is b: continue
         if fwd_only and order.index(a) > order.index(b):
             a, b = b, a
         try:
@@ -441,8 +449,11 @@ def independence(R, w, s, sched, mk, rng):
         R.bad('C08 balancing off: dates change when unrelated tasks are removed', f'task {t.id}: {a.start}..{a.end} vs {b.start}..{b.end} after removing {r.id}')
 
 
+DEFAULT_BUDGET = {'quick': 1200, 'thorough': 20000}
+
+
 def run(props, tier, seed, budget=None):
-    n = budget or (400 if tier == 'quick' else 12000)
+    n = budget or DEFAULT_BUDGET[tier]
     findings = []; stats = collections.Counter(); distinct = set(); samples = []
     for i in range(n):
         viol, tags, desc, outcome = run_case(seed, i, props)
